@@ -76,8 +76,10 @@ Definition parse_quant (s : str) : qres :=
   | 123 :: r =>
       match parse_braces r with
       | Some (mn, mx, r') =>
+          (* OverflowError: the repetition number is too large *)
+          if 4294967295 <=? mn then QErr else
           match mx with
-          | Some x => if x <? mn then QErr else finish mn mx r'
+          | Some x => if (x <? mn) || (4294967295 <=? x) then QErr else finish mn mx r'
           | None => finish mn mx r'
           end
       | None => QNone
